@@ -221,3 +221,26 @@ def hstack(blocks, format=None, dtype=None):
         d += list(co.data); r += list(co.row); c += [x + off for x in co.col]; off += b.shape[1]
     out = coo_matrix((d, (r, c)), shape=(nrow, off))
     return out.tocsc() if all(b.format == 'csc' for b in blocks) else out.tocsr()
+
+# ---- probe additions
+def _ne(self, other):
+    a = self.toarray(); b = other.toarray()
+    d, r, c = [], [], []
+    for i in range(a.shape[0]):
+        for j in range(a.shape[1]):
+            if a[i, j] != b[i, j]: d.append(True); r.append(i); c.append(j)
+    return coo_matrix((d, (r, c)), shape=self._shape).tocsr()
+spmatrix.__ne__ = _ne
+spmatrix.__hash__ = lambda self: id(self)
+
+class dok_matrix(spmatrix):
+    format = 'dok'
+    def __init__(self, shape, dtype=None): self._shape = tuple(int(x) for x in shape); self.d = {}
+    def __getitem__(self, k): return self.d.get((int(k[0]), int(k[1])), 0.0)
+    def __setitem__(self, k, v): self.d[(int(k[0]), int(k[1]))] = v
+    def tocoo(self, copy=False):
+        ks = sorted(self.d); return coo_matrix(([self.d[k] for k in ks], ([k[0] for k in ks], [k[1] for k in ks])), shape=self._shape)
+    def tocsr(self, copy=False): return self.tocoo().tocsr()
+    def tocsc(self, copy=False): return self.tocoo().tocsc()
+    def transpose(self, axes=None, copy=False):
+        o = dok_matrix((self._shape[1], self._shape[0])); o.d = {(b, a): v for (a, b), v in self.d.items()}; return o
